@@ -118,6 +118,29 @@ CHECKS = {
     note="'model checking' here means enumerating the finite case analysis of self-contained functions with TLC and validating each case against the "
          "implementation. Polynomial / Sutherland properties and the viscosity mixing rule (square roots) are outside the rational reference.",
     technique="TLA+ rational reference (Rat/PPLib/GenLib) model-checked with TLC + every generated case evaluated by the real classes + trace validation (Trace_Lib)"),
+ "C10": dict(
+    level="model_checking",
+    text="PPRefTherm is an exact rational reference for temperatures on the designed family (decay factors 1, 1/2, 3/4 with the heat-transfer "
+         "coefficient derived from the documented exponential law, two ambient temperatures, heat exchangers, mass-flow weighted mixing at chords, "
+         "feed temperature fixed at the feeder). TLC checks the reference (isothermal law, balance) and emits scenarios incl. branches declared "
+         "against the flow and 1-3 sections; pandapipes solves them in modes sequential, bidirectional and heat (stored hydraulics) with different "
+         "labels / row orders / start temperatures / series-split pipes; Trace_Therm compares every junction temperature, t_from / t_to / t_outlet "
+         "and the min/max bound with TLC's prediction (2e-3 K). Designed loops (GenLoop) add circulation-pump feed and return temperatures.",
+    design_ref="DESIGN.md 5 C10",
+    note="Constant heat capacity only: the mean-cp weighting of the mixing rule with temperature-dependent cp (DESIGN F4) is outside the exact reference. "
+         "Trees + chords up to 5 junctions; thermal connectivity patterns (thermally unsupplied islands) are not enumerated yet.",
+    technique="TLA+ exact thermal reference (PPRefTherm/GenHyd, PPRefLoop/GenLoop) model-checked with TLC + TLC-generated scenarios replayed into pandapipes + trace validation (Trace_Therm/Trace_Loop)"),
+ "C11": dict(
+    level="model_checking",
+    text="GenLoop enumerates designed district-heating loops (circulation pump of either kind, supply / return pipes with decay, one or two "
+         "consumers in the five heat-consumer modes or heat exchangers); TLC checks the reference's energy closure (pump heat = consumer duties + "
+         "pipe losses) and every loop is solved in bidirectional and sequential mode (other start temperatures, labels, sections). Trace_Loop "
+         "demands for every consumer qext = m cp (t_from - t_outlet), the prescribed pair of quantities met whenever the mass flow is prescribed "
+         "or the mode is bidirectional, and the pump's reported heat, mass flow and return temperature equal to the exact prediction.",
+    design_ref="DESIGN.md 5 C11",
+    note="Constant heat capacity (the 'up to the heat-capacity discretisation' term is zero); positive heat flows only in the enumerated loops "
+         "(negative duties appear in C10's exchanger scenarios); non-converged runs are not judged.",
+    technique="TLA+ exact loop reference (PPRefLoop/GenLoop) model-checked with TLC + every loop replayed into pandapipes + trace validation (Trace_Loop)"),
 }
 NA_REASON = "check not built yet in this round (work in progress; see DESIGN.md section 5 for the planned decision procedure)"
 
